@@ -31,7 +31,7 @@ import (
 	"github.com/apache/thrift/lib/go/thrift"
 )
 
-const adpWatch = 1500 * time.Millisecond
+const adpWatch = 4 * time.Second
 
 var adpDebug = os.Getenv("ADPDEBUG") != ""
 
